@@ -173,3 +173,27 @@ _ineq2("add_constraint_le_zero", "bden(P) <= 0", "-bden(P)",
 _ineq2("add_constraint_lt_zero", "bden(P) < 0", "-bden(P) - 1")
 _ineq2("add_constraint_ge_zero", "bden(P) >= 0", "bden(P)")
 _ineq2("add_constraint_gt_zero", "bden(P) > 0", "bden(P) - 1")
+
+# != 0 : non-negativity, the penalty on violating assignments, and exactness without ancillas. The witness form of
+# clause (2) differs per branch (it is inherited from > / < or uses the sign ancilla) and stays bounded.
+_SGN = "(slackval(pre(self._ancilla), visited, log_trick) if xv(anclabel(pre(self._ancilla) - 1)) == 1 else " \
+       "-slackval(pre(self._ancilla), visited, log_trick))"
+contract(M + "PCBO.add_constraint_ne_zero", props=["C02", "C19"],
+         instances=[{"self": "model:PCBO", "P": p, "lam": "real", "log_trick": "bool", "bounds": b,
+                     "suppress_warnings": "const:False"}
+                    for p in ("termdict", "model:PUBO", "model:PCBO") for b in ("none", "tuple:real,real", "tuple:none,real")],
+         requires=["wf(self)", "lam > 0", "isint(bden(P))", "encloses(bounds, bden(P))",
+                   "wf(P) if not typeis(P, 'dict') else True", "distinct(self, P)"],
+         returns="param:self", modifies=["self"],
+         ensures=[_F + " >= 0",
+                  "implies(bden(P) == 0 and not warned_unsat(), %s >= lam)" % _F,
+                  "implies(bden(P) != 0 and %s == 0, %s == 0)" % (_N, _F),
+                  "self._ancilla >= old(self._ancilla)", "wf(self)", "result is self"],
+         loops={1: {"invariant": "bden(P) == pre(bden(P)) + " + _SGN + " and "
+                                 "max_val == pre(max_val) + slackcap(visited, log_trick) and "
+                                 "min_val == pre(min_val) - slackcap(visited, log_trick) and "
+                                 "self._ancilla == pre(self._ancilla) + visited and wf(P) and "
+                                 "slackval(pre(self._ancilla), visited, log_trick) >= 0 and "
+                                 "slackval(pre(self._ancilla), visited, log_trick) <= slackcap(visited, log_trick) and "
+                                 "slack_next(pre(self._ancilla), visited, log_trick) == slack_next(pre(self._ancilla), visited, log_trick)",
+                    "modifies": ["self._ancilla"]}})
